@@ -1,7 +1,7 @@
 ------------------------------ MODULE MC_Rule ------------------------------
 EXTENDS Rule, Json
 
-CONSTANTS MaxConds, MaxBatches, MaxPts, CondMode   \* CondMode: "all" | "some"
+CONSTANTS MaxConds, MaxBatches, MaxPts, CondMode   \* CondMode: "all" | "some" | "sched" (rules with a schedule condition)
 
 Nodes == {"A", "B"}
 Cond(nf, tf, kf, vt, op, thr, txt) == [nodeF |-> nf, typeF |-> tf, keyF |-> kf, vt |-> vt, op |-> op, thr |-> thr, txt |-> txt]
@@ -9,12 +9,18 @@ NumConds == {Cond(nf, tf, kf, "number", op, thr, "") : nf \in {"", "A"}, tf \in 
                                                       op \in {">", "<", "=", "!="}, thr \in {0, 1}}
 OnOffConds == {Cond(nf, "v", kf, "onOff", "", thr, "") : nf \in {"", "B"}, kf \in {"", "k"}, thr \in {0, 1}}
 TextConds == {Cond(nf, "w", "", "text", op, 0, txt) : nf \in {"", "A"}, op \in {"=", "!=", "contains"}, txt \in {"a", "ab", ""}}
-AllConds == NumConds \cup OnOffConds \cup TextConds
+SchedConds == {Cond("", "trigger", "", "schedule", "", 0, "")}
+AllConds == NumConds \cup OnOffConds \cup TextConds \cup SchedConds
 SomeConds == {Cond("A", "v", "", "number", ">", 1, ""), Cond("", "v", "k", "number", "!=", 0, ""),
               Cond("", "w", "", "text", "contains", 0, "a"), Cond("B", "v", "", "onOff", "", 1, ""),
-              Cond("", "w", "", "text", "=", 0, "ab"), Cond("A", "w", "", "text", "!=", 0, "")}
+              Cond("", "w", "", "text", "=", 0, "ab"), Cond("A", "w", "", "text", "!=", 0, "")} \cup SchedConds
 CondSet == IF CondMode = "all" THEN AllConds ELSE SomeConds
-CondSeqs == UNION {[1..n -> CondSet] : n \in 0..MaxConds}
+\* "sched": every rule has a schedule condition, alone or next to a point condition (either order)
+SchedMix == {Cond("A", "v", "", "number", ">", 1, ""), Cond("", "w", "", "text", "contains", 0, "a")}
+CondSeqs == IF CondMode = "sched"
+            THEN {<<sc>> : sc \in SchedConds} \cup {<<sc, c>> : sc \in SchedConds, c \in SchedMix}
+                 \cup {<<c, sc>> : sc \in SchedConds, c \in SchedMix}
+            ELSE UNION {[1..n -> CondSet] : n \in 0..MaxConds}
 
 Act(t, v, x) == [target |-> t, ptype |-> "out", val |-> v, txt |-> x]
 ActLists == {<<>>, <<Act("T1", 1, "")>>, <<Act("T1", 5, "on"), Act("T2", 0, "x")>>}
@@ -23,16 +29,26 @@ Pts == {[type |-> t, key |-> k, val |-> v, txt |-> x] : t \in {"v", "w"}, k \in 
 \* values and texts are correlated to keep the alphabet small: v-points carry numbers, w-points carry texts
 PtsSmall == {[type |-> "v", key |-> k, val |-> v, txt |-> ""] : k \in {"k", "j"}, v \in {0, 1, 2}}
             \cup {[type |-> "w", key |-> "j", val |-> 0, txt |-> x] : x \in {"", "a", "ab"}}
-BatchesOf == UNION {[1..n -> PtsSmall] : n \in 1..MaxPts}
+\* trigger points (val: 1 = time inside the schedule window, 0 = outside) come one per batch
+Triggers == {<<[type |-> "trigger", key |-> "", val |-> v, txt |-> ""]>> : v \in {0, 1}}
+BatchesOf == IF CondMode = "sched"
+             THEN Triggers \cup {<<[type |-> "v", key |-> "k", val |-> v, txt |-> ""]>> : v \in {0, 2}}
+                           \cup {<<[type |-> "w", key |-> "j", val |-> 0, txt |-> x]>> : x \in {"", "a"}}
+             ELSE UNION {[1..n -> PtsSmall] : n \in 1..MaxPts} \cup Triggers
 
 VARIABLES cfg, st, hist
 rvars == <<cfg, st, hist>>
 
 Init == /\ \E cs \in CondSeqs, a \in ActLists, i \in ActLists : cfg = [conds |-> cs, actA |-> a, actI |-> i]
+        \* (a rule that starts with its configuration complete evaluates nothing until the first point
+        \* arrives; its own 10 s schedule tick is outside the behaviours' time span)
         /\ st = [cond |-> [i \in 1..Len(cfg.conds) |-> FALSE], rule |-> FALSE]
         /\ hist = <<>>
+\* the rule's own schedule tick (every 10 s it sends itself a trigger stamped with its wall clock, which
+\* lies inside the window): only as the last step of a behaviour - the driver has to wait for it
+TickBatch == <<[type |-> "trigger", key |-> "tick", val |-> 1, txt |-> ""]>>
 Next == /\ Len(hist) < MaxBatches
-        /\ \E n \in Nodes, pts \in BatchesOf :
+        /\ \E n \in Nodes, pts \in BatchesOf \cup (IF CondMode = "sched" /\ Len(hist) = MaxBatches - 1 THEN {TickBatch} ELSE {}) :
              LET b == Batch(cfg.conds, cfg.actA, cfg.actI, st, n, pts)
              IN /\ st' = [cond |-> b.cond, rule |-> b.rule]
                 /\ hist' = Append(hist, [node |-> n, pts |-> pts, cond |-> b.cond, rule |-> b.rule, em |-> b.em])
